@@ -44,6 +44,8 @@ def cmd_import(name, prop, wt):
     os.makedirs(d, exist_ok=True)
     for f in ("patch.diff", "demo.rs", "notes.md"):
         shutil.copy(os.path.join(wt, "OUT", f), os.path.join(d, f))
+    if os.path.exists(os.path.join(wt, "OUT", "demo_cargo.diff")):
+        shutil.copy(os.path.join(wt, "OUT", "demo_cargo.diff"), os.path.join(d, "demo_cargo.diff"))
     rc, out = sh("git status --porcelain --untracked-files=all", cwd=wt)
     demo = [l[3:] for l in out.splitlines() if l.startswith("??") and "/tests/" in l and l.endswith(".rs")]
     m = {"name": name, "property": prop, "demo_path": demo[0] if demo else None, "source": "independent sub-agent given only the property text and a scratch worktree",
@@ -81,7 +83,12 @@ def cmd_verify(name):
         test_name = os.path.basename(demo)[:-3]
         os.makedirs(os.path.join(wt, os.path.dirname(demo)), exist_ok=True)
         shutil.copy(os.path.join(d, "demo.rs"), os.path.join(wt, demo))
+        if os.path.exists(os.path.join(d, "demo_cargo.diff")):
+            rcd, outd = sh("git apply %s/demo_cargo.diff" % d, cwd=wt)
+            res["demo_cargo_diff_applies"] = rcd == 0
         pkg = {"h263": "h263-rs", "yuv": "h263-rs-yuv", "deblock": "h263-rs-deblock"}[crate_dir]
+        if 'feature = "verif"' in open(os.path.join(d, "demo.rs")).read() or "h263_rs::verif" in open(os.path.join(d, "demo.rs")).read():
+            pkg += " --features verif"
         rc1, out1 = sh("%s cargo test --offline -p %s --test %s 2>&1" % (env_t, pkg, test_name), cwd=wt)
         res["demo_fails_with_patch"] = rc1 != 0 and ("FAILED" in out1 or "panicked" in out1 or "abort" in out1.lower() or "signal" in out1.lower())
         res["demo_with_patch_tail"] = out1[-400:]
